@@ -5,8 +5,8 @@ use educe::Educe;
 use core::cmp::Ordering;
 #[derive(Educe)]
 #[educe(Hash)]
-pub struct T { x: A<0>, c: A<1>, #[educe(Hash(ignore = true))] a: A<0>, other: A<0> }
-pub fn values() -> Vec<T> { vec![T { x: A(0), c: A(0), a: A(1), other: A(0) }, T { x: A(0), c: A(7), a: A(0), other: A(1) }, T { x: A(1), c: A(7), a: A(1), other: A(7) }, T { x: A(1), c: A(0), a: A(7), other: A(1) }, T { x: A(1), c: A(0), a: A(0), other: A(7) }, T { x: A(1), c: A(0), a: A(0), other: A(1) }, T { x: A(1), c: A(1), a: A(1), other: A(7) }, T { x: A(0), c: A(1), a: A(7), other: A(7) }, T { x: A(0), c: A(7), a: A(7), other: A(1) }, T { x: A(1), c: A(7), a: A(7), other: A(1) }, T { x: A(7), c: A(7), a: A(0), other: A(7) }, T { x: A(7), c: A(1), a: A(0), other: A(0) }, T { x: A(1), c: A(1), a: A(1), other: A(0) }, T { x: A(7), c: A(1), a: A(0), other: A(7) }, T { x: A(7), c: A(1), a: A(1), other: A(0) }, T { x: A(0), c: A(7), a: A(7), other: A(7) }, T { x: A(1), c: A(1), a: A(7), other: A(1) }, T { x: A(1), c: A(0), a: A(1), other: A(0) }, T { x: A(7), c: A(7), a: A(0), other: A(1) }, T { x: A(1), c: A(7), a: A(7), other: A(0) }, T { x: A(7), c: A(7), a: A(7), other: A(1) }, T { x: A(0), c: A(0), a: A(0), other: A(7) }, T { x: A(0), c: A(0), a: A(7), other: A(0) }, T { x: A(0), c: A(7), a: A(0), other: A(0) }, T { x: A(7), c: A(0), a: A(7), other: A(0) }, T { x: A(7), c: A(7), a: A(1), other: A(7) }, T { x: A(0), c: A(1), a: A(0), other: A(1) }, T { x: A(1), c: A(7), a: A(0), other: A(1) }, T { x: A(0), c: A(0), a: A(1), other: A(7) }, T { x: A(7), c: A(1), a: A(1), other: A(1) }, T { x: A(0), c: A(1), a: A(7), other: A(0) }, T { x: A(1), c: A(0), a: A(7), other: A(7) }, T { x: A(7), c: A(0), a: A(7), other: A(1) }, T { x: A(1), c: A(0), a: A(1), other: A(1) }, T { x: A(7), c: A(7), a: A(0), other: A(0) }, T { x: A(7), c: A(0), a: A(1), other: A(1) }, T { x: A(7), c: A(0), a: A(7), other: A(7) }, T { x: A(1), c: A(0), a: A(0), other: A(0) }, T { x: A(7), c: A(1), a: A(7), other: A(0) }, T { x: A(0), c: A(0), a: A(1), other: A(1) }, T { x: A(7), c: A(0), a: A(1), other: A(7) }, T { x: A(7), c: A(1), a: A(7), other: A(1) }, T { x: A(7), c: A(1), a: A(0), other: A(1) }, T { x: A(1), c: A(7), a: A(1), other: A(0) }, T { x: A(7), c: A(0), a: A(0), other: A(7) }, T { x: A(1), c: A(1), a: A(7), other: A(7) }, T { x: A(7), c: A(1), a: A(1), other: A(7) }, T { x: A(0), c: A(7), a: A(0), other: A(7) }] }
-pub fn show(x: &T) -> String { #[allow(unused_variables)] match x { T { x: p0, c: p1, a: p2, other: p3 } => format!("T({},{},{},{})", sv(p0), sv(p1), sv(p2), sv(p3)) } }
-pub fn o_hash(x: &T) -> Vec<String> { let mut e = Rec::default(); match x { T { x: p0, c: p1, a: p2, other: p3 } => { ::core::hash::Hash::hash(p0, &mut e); ::core::hash::Hash::hash(p1, &mut e); ::core::hash::Hash::hash(p3, &mut e); } } e.0 }
+pub enum T { A(), None { #[educe(Hash = false)] source: A<0>, #[educe(Hash(method = m_hash))] b: A<1> } }
+pub fn values() -> Vec<T> { vec![T::A(), T::None { source: A(0), b: A(0) }, T::None { source: A(0), b: A(1) }, T::None { source: A(0), b: A(7) }, T::None { source: A(1), b: A(0) }, T::None { source: A(1), b: A(1) }, T::None { source: A(1), b: A(7) }, T::None { source: A(7), b: A(0) }, T::None { source: A(7), b: A(1) }, T::None { source: A(7), b: A(7) }] }
+pub fn show(x: &T) -> String { #[allow(unused_variables)] match x { T::A() => format!("A()"), T::None { source: p0, b: p1 } => format!("None({},{})", sv(p0), sv(p1)) } }
+pub fn o_hash(x: &T) -> Vec<String> { let mut e = Rec::default(); match x { T::A() => { ::core::hash::Hash::hash(&0usize, &mut e); }, T::None { source: p0, b: p1 } => { ::core::hash::Hash::hash(&1usize, &mut e); m_hash(p1, &mut e); } } e.0 }
 pub fn run(out: &mut Out) { let vs = values(); for a in &vs { let mut g = Rec::default(); ::core::hash::Hash::hash(a, &mut g); let e = o_hash(a); out.check(g.0 == e, "hash_18", "hash", || format!("hash({}) fed {:?} expected {:?}", show(a), g.0, e)); } }
